@@ -21,6 +21,8 @@ static const profile_t PROFILES[] = {
       0, 0, (1u << P_T) | (1u << P_DOT), (1u << T_T), 0, 0, 0, 1 },
     { "C07", 2, G_CTX | G_REG | G_LIFE | G_REFS | G_ILLEGAL | G_CTXCALL | G_QUIT | G_ARM,  RL_BASE | R_EV,                     1, "", 1, 0, 1 | 4 | 0x80,
       (1u << A_DEREG) | (1u << A_CTXCALL), (1u << CB_START) | (1u << CB_STOP) | (1u << CB_EVT), 0, 0 },
+    { "C07D", 2, G_CTX | G_REG | G_LIFE | G_CTXCALL | G_ARM | G_QUIT,                        RL_BASE | R_EV | R_NM,              1, "", 1, 0, 1 | 8,
+      (1u << A_CTXCALL), (1u << CB_START) | (1u << CB_STOP) | (1u << CB_EVT), 0, 0 },
     { "C07O", 1, G_CTX | G_REG | G_LIFE | G_REFS | G_CTXCALL | G_QUIT,                       RL_BASE | R_EV,                     0, "", 1, 0, 1 | 0x80,
       0, 0, 0, 0, 0, 0, 0, 2 },
     { "C08", 2, G_LIFE | G_MSG | G_SUB | G_PRIO | G_BCAST | G_PILL | G_QUIT | G_BATCH,               RL_BASE | R_PS | R_FIFO | R_PILL,   0, "01000100" "07000100" "07010100" "04000000", 1, 0, 1,
@@ -33,8 +35,12 @@ static const profile_t PROFILES[] = {
       (1u << A_BECOME) | (1u << A_UNBECOME) | (1u << A_STASH) | (1u << A_STOP), (1u << CB_EVT), 0, 0 },
     { "C19", 2, G_REG | G_LIFE | G_SUB | G_QUIT | G_TICK | G_ENV | G_PILL | G_ARM,           RL_BASE | R_PS | R_SY | R_EV,       1, "01000100", 1 | 4, 1, 1,
       (1u << A_DEREG) | (1u << A_STOP) | (1u << A_PAUSE), (1u << CB_START) | (1u << CB_STOP) | (1u << CB_EVT), (1u << P_CTX_STARTED) | (1u << P_CTX_STOPPED) | (1u << P_CTX_TICK) | (1u << P_MOD_STARTED) | (1u << P_MOD_STOPPED), 0 },
+    { "C19T", 1, G_SUB | G_QUIT | G_TICK | G_ENV,                                            RL_BASE | R_PS | R_SY | R_EV,       0, "01000100" "07000100" "07010100" "04000000", 1, 0, 1,
+      0, 0, (1u << P_CTX_TICK), 0, 0, 0, 0, 8 },
     { "C09", 1, G_SRC | G_LIFE | G_ILLEGAL | G_BADPARAM,                                      RL_BASE | R_SR,                     0, "01000100" "07000100", 1, 0, 1,
       0, 0, 0, 0, 0x7f, 1 | 0x100, 0, 4 },
+    { "C09T", 1, G_SRC | G_LIFE | G_ILLEGAL | G_BUCKET | G_BATCH,                             RL_BASE | R_SR | R_TB,              0, "01000100" "07000100", 1, 0, 1,
+      0, 0, 0, 0, (1u << K_TMR), 1, 2 },
     { "C09S", 1, G_SUB | G_LIFE | G_ILLEGAL | G_SUBDUP,                                       RL_BASE | R_SR,                     0, "01000100" "07000100", 1, 0, 1,
       0, 0, (1u << P_T) | (1u << P_U) | (1u << P_RT), 0, 0, 0, 0, 1 },
     { "C09X", 1, G_SRC | G_SUB | G_LIFE | G_ILLEGAL | G_BADPARAM | G_SUBDUP,                  RL_BASE | R_SR,                     0, "01000100" "07000100", 1, 0, 1,
